@@ -25,11 +25,15 @@ func (s siteInfo) String() string {
 
 // xl translates the functions of one type-checked package.
 type xl struct {
-	fset  *token.FileSet
-	l     *loaded
-	repo  string
-	sites *[]siteInfo
-	allow *allowList
+	// ctorMaps: map-typed struct fields that every composite literal of their struct in the
+	// package initialises with make / a map literal, that are never assigned anything else
+	// and whose struct is never created as a zero value in the package (see ctorMapFields)
+	ctorMaps map[*types.Var]bool
+	fset     *token.FileSet
+	l        *loaded
+	repo     string
+	sites    *[]siteInfo
+	allow    *allowList
 }
 
 type okInfo struct {
@@ -51,10 +55,9 @@ type fn struct {
 	oks    map[*types.Var]okInfo
 	ranges []rangeCtx
 	bounds []boundCtx
-	// nonEmpty: local slice/string variables known to have len > 0 in the statement being
-	// translated: the then-branch of `if … && len(x) > 0 && … { … }` when x is a plain local
-	// variable that the branch never assigns, so x[0] is in range there.
-	nonEmpty []*types.Var
+	// isLen: tracked variables of slice / string type; their "kind" is the length class
+	// min(len, 7) (kind number k = length k for k <= 6, kind 7 = length >= 7)
+	isLen  map[*types.Var]bool
 	labels map[string]bool
 	// madeMaps: map-typed expressions (printed) this function visibly made non-nil
 	madeMaps map[string]bool
@@ -202,7 +205,9 @@ func (f *fn) collect(ftype *ast.FuncType, recv *ast.FieldList, body *ast.BlockSt
 	f.vars = map[*types.Var]int{}
 	f.isPtr = map[*types.Var]bool{}
 	bad := map[*types.Var]bool{}
-	var cands []*types.Var
+	f.isLen = map[*types.Var]bool{}
+	var cands, lenCands []*types.Var
+	lenUsed := map[*types.Var]bool{} // appears as len(v)
 	add := func(id *ast.Ident) {
 		v, _ := f.l.Info.Defs[id].(*types.Var)
 		if v == nil || id.Name == "_" {
@@ -210,6 +215,9 @@ func (f *fn) collect(ftype *ast.FuncType, recv *ast.FieldList, body *ast.BlockSt
 		}
 		if isTokenType(v.Type()) || isStartPtr(v.Type()) {
 			cands = append(cands, v)
+		}
+		if isLenType(v.Type()) {
+			lenCands = append(lenCands, v)
 		}
 	}
 	fields := func(fl *ast.FieldList) {
@@ -251,6 +259,14 @@ func (f *fn) collect(ftype *ast.FuncType, recv *ast.FieldList, body *ast.BlockSt
 						bad[v] = true
 					}
 				}
+			case *ast.CallExpr:
+				if id, ok := m.Fun.(*ast.Ident); ok && id.Name == "len" && len(m.Args) == 1 {
+					if _, isB := f.l.Info.Uses[id].(*types.Builtin); isB {
+						if v := f.varOf(m.Args[0]); v != nil {
+							lenUsed[v] = true
+						}
+					}
+				}
 			case *ast.TypeSwitchStmt:
 				for _, c := range m.Body.List {
 					if o, ok := f.l.Info.Implicits[c].(*types.Var); ok {
@@ -280,6 +296,16 @@ func (f *fn) collect(ftype *ast.FuncType, recv *ast.FieldList, body *ast.BlockSt
 		}
 		f.vars[v] = len(f.vars)
 		f.isPtr[v] = isStartPtr(v.Type())
+	}
+	for _, v := range lenCands {
+		if bad[v] || !lenUsed[v] {
+			continue
+		}
+		if _, dup := f.vars[v]; dup {
+			continue
+		}
+		f.vars[v] = len(f.vars)
+		f.isLen[v] = true
 	}
 }
 
@@ -490,13 +516,12 @@ func (f *fn) index(e *ast.IndexExpr) *Stmt {
 		return skip()
 	}
 	xs := f.str(e.X)
-	if c, ok := f.intConst(e.Index); ok && c == 0 {
-		if xv := f.varOf(e.X); xv != nil {
-			for _, v := range f.nonEmpty {
-				if v == xv {
-					return pre
-				}
+	if c, ok := f.intConst(e.Index); ok && c >= 0 && c <= 6 {
+		if xv := f.varOf(e.X); xv != nil && f.isLen[xv] {
+			if f.allow.covers(f.name, "index", f.str(e)) {
+				return pre
 			}
+			return seq(pre, require(f.vars[xv], maskGE(c+1), f.newSite(e, "index", f.str(e))))
 		}
 	}
 	if iv := f.varOf(e.Index); iv != nil {
@@ -527,6 +552,14 @@ func (f *fn) slice(e *ast.SliceExpr) *Stmt {
 	}
 	if okLow && okHigh && e.Max == nil {
 		return pre
+	}
+	if c, ok := f.intConst(e.Low); ok && c >= 0 && c <= 7 && okHigh && e.Max == nil {
+		if xv := f.varOf(e.X); xv != nil && f.isLen[xv] {
+			if f.allow.covers(f.name, "slice", f.str(e)) {
+				return pre
+			}
+			return seq(pre, require(f.vars[xv], maskGE(c), f.newSite(e, "slice", f.str(e))))
+		}
 	}
 	// s[:n] / s[n:] where n is the int result of a Read/copy on s is not recognised: flag it
 	return seq(pre, f.hz(e, "slice", f.str(e)))
@@ -636,12 +669,15 @@ func (f *fn) hasGuard(e ast.Expr) bool {
 		case token.EQL, token.NEQ:
 			if f.isNil(e.Y) {
 				_, ok := f.tracked(e.X)
-				return ok
+				return ok && !f.isLen[f.varOf(e.X)]
 			}
 			if f.isNil(e.X) {
 				_, ok := f.tracked(e.Y)
-				return ok
+				return ok && !f.isLen[f.varOf(e.Y)]
 			}
+		}
+		if _, _, ok := f.lenGuard(e); ok {
+			return true
 		}
 	case *ast.Ident:
 		if v := f.varOf(e); v != nil {
@@ -650,6 +686,99 @@ func (f *fn) hasGuard(e ast.Expr) bool {
 		}
 	}
 	return false
+}
+
+func isLenType(t types.Type) bool {
+	if t == nil {
+		return false
+	}
+	switch u := t.Underlying().(type) {
+	case *types.Slice:
+		return true
+	case *types.Basic:
+		return u.Info()&types.IsString != 0
+	}
+	return false
+}
+
+// maskGE: the length classes of lengths >= n (n <= 7).
+func maskGE(n int64) int { return 0xFF &^ ((1 << uint(n)) - 1) }
+
+// LenGuardMask is the set of length classes (bit k = length k for k <= 6, bit 7 = length >= 7)
+// for which `len(x) op c` holds, if the comparison has the same truth value for every length
+// of class 7 (otherwise ok = false and the translator does not interpret the condition).
+func LenGuardMask(op token.Token, c int64) (mask int, ok bool) {
+	if c < 0 {
+		return 0, false
+	}
+	switch op {
+	case token.EQL:
+		if c <= 6 {
+			return 1 << uint(c), true
+		}
+	case token.NEQ:
+		if c <= 6 {
+			return 0xFF &^ (1 << uint(c)), true
+		}
+	case token.LSS:
+		if c <= 7 {
+			return 0xFF &^ maskGE(c), true
+		}
+	case token.LEQ:
+		if c <= 6 {
+			return 0xFF &^ maskGE(c+1), true
+		}
+	case token.GTR:
+		if c <= 6 {
+			return maskGE(c + 1), true
+		}
+	case token.GEQ:
+		if c <= 7 {
+			return maskGE(c), true
+		}
+	}
+	return 0, false
+}
+
+var flipOp = map[token.Token]token.Token{token.EQL: token.EQL, token.NEQ: token.NEQ, token.LSS: token.GTR, token.GTR: token.LSS, token.LEQ: token.GEQ, token.GEQ: token.LEQ}
+
+// lenGuard recognises `len(x) op c` / `c op len(x)` on a tracked length variable.
+func (f *fn) lenGuard(e *ast.BinaryExpr) (v int, mask int, ok bool) {
+	lenVar := func(x ast.Expr) (int, bool) {
+		call, ok := ast.Unparen(x).(*ast.CallExpr)
+		if !ok || len(call.Args) != 1 {
+			return 0, false
+		}
+		id, ok := call.Fun.(*ast.Ident)
+		if !ok || id.Name != "len" {
+			return 0, false
+		}
+		if _, isB := f.l.Info.Uses[id].(*types.Builtin); !isB {
+			return 0, false
+		}
+		xv := f.varOf(call.Args[0])
+		if xv == nil || !f.isLen[xv] {
+			return 0, false
+		}
+		return f.vars[xv], true
+	}
+	op := e.Op
+	if _, known := flipOp[op]; !known {
+		return 0, 0, false
+	}
+	if i, isLen := lenVar(e.X); isLen {
+		if c, isC := f.intConst(e.Y); isC {
+			m, ok := LenGuardMask(op, c)
+			return i, m, ok
+		}
+	}
+	if i, isLen := lenVar(e.Y); isLen {
+		if c, isC := f.intConst(e.X); isC {
+			m, ok := LenGuardMask(flipOp[op], c)
+			return i, m, ok
+		}
+	}
+	return 0, 0, false
 }
 
 // cond is the skeleton of `if e { T } else { E }`.
@@ -667,6 +796,11 @@ func (f *fn) cond(e ast.Expr, T, E *Stmt) *Stmt {
 			return f.cond(e.X, f.cond(e.Y, T, E), E)
 		case token.LOR:
 			return f.cond(e.X, T, f.cond(e.Y, T, E))
+		}
+		if i, mask, ok := f.lenGuard(e); ok {
+			return ifKind(i, mask, T, E)
+		}
+		switch e.Op {
 		case token.EQL, token.NEQ:
 			x := e.X
 			if f.isNil(e.X) {
@@ -702,6 +836,9 @@ func (f *fn) assignTo(lhs ast.Expr, rhs ast.Expr) *Stmt {
 	if !ok {
 		return f.lvalue(lhs)
 	}
+	if f.isLen[v] {
+		return f.assignLen(i, rhs)
+	}
 	top := tokTop
 	if f.isPtr[v] {
 		top = ptrTop
@@ -713,7 +850,7 @@ func (f *fn) assignTo(lhs ast.Expr, rhs ast.Expr) *Stmt {
 	if f.isNil(rhs) {
 		return havoc(i, kNil)
 	}
-	if j, ok := f.tracked(rhs); ok && f.isPtr[f.varOf(rhs)] == f.isPtr[v] {
+	if j, ok := f.tracked(rhs); ok && f.isPtr[f.varOf(rhs)] == f.isPtr[v] && !f.isLen[f.varOf(rhs)] {
 		return cp(i, j)
 	}
 	if f.isPtr[v] {
@@ -726,6 +863,61 @@ func (f *fn) assignTo(lhs ast.Expr, rhs ast.Expr) *Stmt {
 		return havoc(i, m)
 	}
 	return havoc(i, tokTop)
+}
+
+func lenClass(n int64) int {
+	if n > 7 {
+		n = 7
+	}
+	return 1 << uint(n)
+}
+
+// assignLen: the length class of the value stored into the tracked slice / string variable i.
+func (f *fn) assignLen(i int, rhs ast.Expr) *Stmt {
+	if rhs == nil {
+		return havoc(i, 0xFF)
+	}
+	rhs = ast.Unparen(rhs)
+	if f.isNil(rhs) {
+		return havoc(i, lenClass(0))
+	}
+	if rv := f.varOf(rhs); rv != nil && f.isLen[rv] {
+		return cp(i, f.vars[rv])
+	}
+	if cv := f.constOf(rhs); cv != nil && cv.Kind() == constant.String {
+		return havoc(i, lenClass(int64(len(constant.StringVal(cv)))))
+	}
+	switch e := rhs.(type) {
+	case *ast.CompositeLit:
+		for _, el := range e.Elts {
+			if _, kv := el.(*ast.KeyValueExpr); kv {
+				return havoc(i, 0xFF)
+			}
+		}
+		return havoc(i, lenClass(int64(len(e.Elts))))
+	case *ast.CallExpr:
+		if id, ok := e.Fun.(*ast.Ident); ok {
+			if b, isB := f.l.Info.Uses[id].(*types.Builtin); isB {
+				switch b.Name() {
+				case "make":
+					if len(e.Args) >= 2 {
+						if c, ok := f.intConst(e.Args[1]); ok && c >= 0 {
+							return havoc(i, lenClass(c))
+						}
+					}
+				case "append":
+					if !e.Ellipsis.IsValid() && len(e.Args) >= 1 {
+						n := int64(len(e.Args) - 1)
+						if n > 7 {
+							n = 7
+						}
+						return havoc(i, maskGE(n))
+					}
+				}
+			}
+		}
+	}
+	return havoc(i, 0xFF)
 }
 
 // lvalue is the skeleton of evaluating an assignment target that is not a tracked variable.
@@ -749,6 +941,13 @@ func (f *fn) lvalue(l ast.Expr) *Stmt {
 func (f *fn) mapWrite(l *ast.IndexExpr) *Stmt {
 	if f.madeMaps[f.str(l.X)] {
 		return skip()
+	}
+	if sel, ok := ast.Unparen(l.X).(*ast.SelectorExpr); ok {
+		if s, ok := f.l.Info.Selections[sel]; ok {
+			if fv, ok := s.Obj().(*types.Var); ok && f.ctorMaps[fv] {
+				return skip()
+			}
+		}
 	}
 	return f.hz(l, "mapwrite", f.str(l.X))
 }
@@ -815,6 +1014,9 @@ func (f *fn) stmt(s ast.Stmt) *Stmt {
 			// op-assignment
 			r := seq(f.eff(s.Lhs[0]), f.eff(s.Rhs[0]))
 			f.kill(f.varOf(s.Lhs[0]))
+			if lv := f.varOf(s.Lhs[0]); lv != nil && f.isLen[lv] {
+				r = seq(r, havoc(f.vars[lv], 0xFF)) // s += …
+			}
 			if (s.Tok == token.QUO_ASSIGN || s.Tok == token.REM_ASSIGN) && isInteger(f.typeOf(s.Lhs[0])) && !nonZeroConst(f.constOf(s.Rhs[0])) {
 				r = seq(r, f.hz(s, "div", f.str(s.Lhs[0])+" "+s.Tok.String()+" "+f.str(s.Rhs[0])))
 			}
@@ -826,10 +1028,7 @@ func (f *fn) stmt(s ast.Stmt) *Stmt {
 			init := f.stmt(s.Init)
 			// translate the condition first: the branches may kill the ok-facts it uses
 			saved := f.snapshot()
-			ne := f.nonEmptyGuards(s)
-			f.nonEmpty = append(f.nonEmpty, ne...)
 			T := f.stmt(s.Body)
-			f.nonEmpty = f.nonEmpty[:len(f.nonEmpty)-len(ne)]
 			f.restore(saved)
 			E := f.stmt(s.Else)
 			f.restore(saved)
@@ -1069,7 +1268,15 @@ func (f *fn) define(lhs, rhs []ast.Expr, at ast.Stmt) *Stmt {
 		}
 		for i := range lhs {
 			f.noteMade(lhs[i], rhs[i])
-			r = seq(r, f.assignTo(lhs[i], rhs[i]))
+			rv := rhs[i]
+			if len(lhs) > 1 {
+				// parallel assignment: the right-hand sides are evaluated before any store, so a
+				// tracked variable on the right must not be read after an earlier store changed it
+				if _, tr := f.tracked(rv); tr {
+					rv = nil
+				}
+			}
+			r = seq(r, f.assignTo(lhs[i], rv))
 		}
 		// b := x == nil / b := x != nil with a fresh b: b is a guard on x's kind
 		if as, isAssign := at.(*ast.AssignStmt); isAssign && as.Tok == token.DEFINE && len(lhs) == 1 {
@@ -1233,73 +1440,6 @@ func (f *fn) noteMade(lhs, rhs ast.Expr) {
 	delete(f.madeMaps, key)
 }
 
-// nonEmptyGuards returns the local variables x for which the condition of s has a top-level
-// conjunct `len(x) > 0`, `len(x) != 0`, `len(x) >= 1`, `0 < len(x)`, `0 != len(x)` or
-// `1 <= len(x)` and which are never assigned (nor have their address taken) in the body.
-func (f *fn) nonEmptyGuards(s *ast.IfStmt) []*types.Var {
-	var out []*types.Var
-	var conj func(e ast.Expr)
-	lenArg := func(e ast.Expr) *types.Var {
-		call, ok := ast.Unparen(e).(*ast.CallExpr)
-		if !ok || len(call.Args) != 1 {
-			return nil
-		}
-		id, ok := call.Fun.(*ast.Ident)
-		if !ok || id.Name != "len" {
-			return nil
-		}
-		if _, isBuiltin := f.l.Info.Uses[id].(*types.Builtin); !isBuiltin {
-			return nil
-		}
-		return f.varOf(call.Args[0])
-	}
-	conj = func(e ast.Expr) {
-		be, ok := ast.Unparen(e).(*ast.BinaryExpr)
-		if !ok {
-			return
-		}
-		if be.Op == token.LAND {
-			conj(be.X)
-			conj(be.Y)
-			return
-		}
-		var v *types.Var
-		cx, okx := f.intConst(be.X)
-		cy, oky := f.intConst(be.Y)
-		switch {
-		case oky && ((be.Op == token.GTR && cy == 0) || (be.Op == token.NEQ && cy == 0) || (be.Op == token.GEQ && cy == 1)):
-			v = lenArg(be.X)
-		case okx && ((be.Op == token.LSS && cx == 0) || (be.Op == token.NEQ && cx == 0) || (be.Op == token.LEQ && cx == 1)):
-			v = lenArg(be.Y)
-		}
-		// only function-local variables: nothing else can change them behind the branch's back
-		if v != nil && !v.IsField() && v.Pkg() != nil && v.Parent() != v.Pkg().Scope() {
-			out = append(out, v)
-		}
-	}
-	conj(s.Cond)
-	if len(out) == 0 || s.Body == nil {
-		return nil
-	}
-	assigned := f.assignedIn(s.Body)
-	addr := map[*types.Var]bool{}
-	ast.Inspect(s.Body, func(n ast.Node) bool {
-		if u, ok := n.(*ast.UnaryExpr); ok && u.Op == token.AND {
-			if v := f.varOf(u.X); v != nil {
-				addr[v] = true
-			}
-		}
-		return true
-	})
-	var keep []*types.Var
-	for _, v := range out {
-		if _, a := assigned[v]; !a && !addr[v] {
-			keep = append(keep, v)
-		}
-	}
-	return keep
-}
-
 // noteNilGuard: after `if m == nil { m = make(…) }` (no else) m is non-nil.
 func (f *fn) noteNilGuard(s *ast.IfStmt) {
 	be, ok := ast.Unparen(s.Cond).(*ast.BinaryExpr)
@@ -1428,4 +1568,160 @@ func (x *xl) declFacts(fd *ast.FuncDecl) *declInfo {
 		}
 	}
 	return di
+}
+
+// ctorMapFields computes the "constructor facts" of a package: the map-typed fields f of a
+// struct type S declared in the package such that
+//
+//   - there is at least one composite literal of S in the package and every one of them sets
+//     f to make(…) or a map literal (keyed form),
+//   - every assignment to a selector of f in the package stores make(…) / a map literal,
+//   - the package never creates a zero S: no new(S), no variable or field or element of type
+//     S (as opposed to *S) without an initialiser.
+//
+// For such a field a store x.f[k] = v cannot meet a nil map unless code outside the package
+// fabricates a zero S (an assumption listed in meta/C09.json).
+func ctorMapFields(l *loaded) map[*types.Var]bool {
+	info := l.Info
+	cand := map[*types.Var]*types.Named{} // field -> its struct's named type
+	for _, o := range info.Defs {
+		tn, ok := o.(*types.TypeName)
+		if !ok || tn.IsAlias() {
+			continue
+		}
+		named, ok := tn.Type().(*types.Named)
+		if !ok {
+			continue
+		}
+		st, ok := named.Underlying().(*types.Struct)
+		if !ok {
+			continue
+		}
+		for i := 0; i < st.NumFields(); i++ {
+			if _, isMap := st.Field(i).Type().Underlying().(*types.Map); isMap {
+				cand[st.Field(i)] = named
+			}
+		}
+	}
+	if len(cand) == 0 {
+		return nil
+	}
+	bad := map[*types.Named]bool{} // struct types with a zero value somewhere
+	badF := map[*types.Var]bool{}  // fields with a non-map-making store / literal without them
+	lits := map[*types.Named]int{}
+	tmp := &fn{xl: &xl{l: l}}
+	zero := func(t types.Type) {
+		// a value (not pointer) of a candidate struct type comes into being without a literal
+		for {
+			switch u := t.(type) {
+			case *types.Array:
+				t = u.Elem()
+				continue
+			case *types.Named:
+				bad[u] = true
+			}
+			return
+		}
+	}
+	for _, file := range l.Files {
+		ast.Inspect(file, func(n ast.Node) bool {
+			switch n := n.(type) {
+			case *ast.CompositeLit:
+				t := info.TypeOf(n)
+				if t == nil {
+					return true
+				}
+				named, _ := t.(*types.Named)
+				if named == nil {
+					return true
+				}
+				st, ok := named.Underlying().(*types.Struct)
+				if !ok {
+					return true
+				}
+				lits[named]++
+				set := map[string]ast.Expr{}
+				keyed := true
+				for _, el := range n.Elts {
+					kv, ok := el.(*ast.KeyValueExpr)
+					if !ok {
+						keyed = false
+						break
+					}
+					if id, ok := kv.Key.(*ast.Ident); ok {
+						set[id.Name] = kv.Value
+					}
+				}
+				for i := 0; i < st.NumFields(); i++ {
+					fv := st.Field(i)
+					if _, isC := cand[fv]; !isC {
+						continue
+					}
+					if v, ok := set[fv.Name()]; !keyed || !ok || !isMapMaker(tmp, v) {
+						badF[fv] = true
+					}
+				}
+			case *ast.AssignStmt:
+				for i, lh := range n.Lhs {
+					sel, ok := ast.Unparen(lh).(*ast.SelectorExpr)
+					if !ok {
+						continue
+					}
+					s, ok := info.Selections[sel]
+					if !ok {
+						continue
+					}
+					fv, ok := s.Obj().(*types.Var)
+					if !ok {
+						continue
+					}
+					if _, isC := cand[fv]; !isC {
+						continue
+					}
+					if len(n.Lhs) != len(n.Rhs) || !isMapMaker(tmp, n.Rhs[i]) {
+						badF[fv] = true
+					}
+				}
+			case *ast.CallExpr:
+				if id, ok := n.Fun.(*ast.Ident); ok && id.Name == "new" && len(n.Args) == 1 {
+					if _, isB := info.Uses[id].(*types.Builtin); isB {
+						if t := info.TypeOf(n.Args[0]); t != nil {
+							zero(t)
+						}
+					}
+				}
+			case *ast.ValueSpec:
+				if n.Type != nil && len(n.Values) == 0 {
+					if t := info.TypeOf(n.Type); t != nil {
+						zero(t)
+					}
+				}
+			case *ast.StructType:
+				for _, fd := range n.Fields.List {
+					if t := info.TypeOf(fd.Type); t != nil {
+						zero(t) // a field of struct type by value is zero when its holder is
+					}
+				}
+			case *ast.UnaryExpr:
+				// &v on a field makes stores through the pointer invisible: give the field up
+				if n.Op == token.AND {
+					if sel, ok := ast.Unparen(n.X).(*ast.SelectorExpr); ok {
+						if s, ok := info.Selections[sel]; ok {
+							if fv, ok := s.Obj().(*types.Var); ok {
+								badF[fv] = true
+							}
+						}
+					}
+				}
+			}
+			return true
+		})
+	}
+	res := map[*types.Var]bool{}
+	for fv, named := range cand {
+		if !badF[fv] && !bad[named] && lits[named] > 0 {
+			res[fv] = true
+		}
+	}
+	return res
 }
